@@ -22,7 +22,7 @@ from .. import api
 OPS = ["size", "count", "sum", "mean", "min", "max", "first", "last", "cummin", "cummax", "cumsum", "shift", "rolling_max", "rolling_min", "t_max"]
 SELECTION = {"min", "max", "first", "last", "cummin", "cummax", "shift", "rolling_max", "rolling_min", "t_max"}
 VDT = ["float64", "float32", "int64", "int32", "int8", "uint8", "bool", "m8[ns]", "m8[us]", "m8[s]", "M8[ns]", "M8[us]", "M8[s]", "M8[ns,UTC]", "M8[us,US/Eastern]"]
-KEY_CONT = ["numpy", "pandas", "index", "polars", "arrow", "arrow_chunked", "pandas_arrow"]
+KEY_CONT = ["numpy", "pandas", "index", "polars", "arrow", "arrow_chunked", "pandas_arrow", "arrow_dict_chunked"]
 VAL_CONT = ["numpy", "pandas", "pandas_arrow", "polars", "arrow", "arrow_chunked"]
 
 
@@ -164,7 +164,8 @@ def run_case(GroupBy, c):
     except Exception as e:  # noqa: BLE001
         return [dict(sig={**sig, "what": "reference-raised", "exc": type(e).__name__}, what=f"{op} on the NumPy reference raised {e!r}"[:300], observed=repr(e)[:200], expected="a result")]
     try:
-        key = api.make_key(c["col"], c["kind"], c["kcont"], chunks=c["key_chunks"])
+        from .c02 import build_key
+        key = build_key(c["col"], c["kind"], c["kcont"], c["key_chunks"])
         gb = GroupBy(key)
         v = make_values(c, c["vcont"])
         out = call(gb, op, v)
